@@ -368,7 +368,14 @@ def _fill_cli(ctx, tmp):
             continue
         rng = ctx.rng("fillcli", system, i)
         nv = int(rng.integers(1, 10))
-        field = FT.invariant_field(rng, system, nv, integer=(i % 5 == 0))
+        datol = None
+        if i % 5 == 2 and nv >= 2:
+            # the documented --drop-atol option with a component that runs from 0 at one end to 2..30 GPa at the other: it exceeds the
+            # tolerance somewhere, so it stays in the table, every entry as the symmetry filling gives it
+            field = FT.invariant_field(rng, system, nv, one_signed_with_zero=True)
+            datol = [0.5, 1.5][(i // 5) % 2]
+        else:
+            field = FT.invariant_field(rng, system, nv, integer=(i % 5 == 0))
         S = FT.superset(rng, FT.minimal_sufficient(rng, system), 0.2)
         S = [S[int(j)] for j in rng.permutation(len(S))]
         volumes = numpy.round(numpy.sort(rng.uniform(100, 900, nv))[::-1], int(rng.integers(2, 6)))
@@ -391,17 +398,18 @@ def _fill_cli(ctx, tmp):
         try:
             if via_subprocess:
                 env = dict(os.environ, PYTHONPATH=f"{repo_dir()}:{os.environ.get('PYTHONPATH', '')}")
-                p = subprocess.run([PY, "-c", "from cij.cli.cij import main; main()", "fill", "-s", system, path], capture_output=True, text=True,
+                p = subprocess.run([PY, "-c", "from cij.cli.cij import main; main()", "fill", "-s", system, path] + ([] if datol is None else ["--drop-atol", repr(datol)]),
+                                   capture_output=True, text=True,
                                    env=env, timeout=300, cwd=tmp)
                 rc, out, err = p.returncode, p.stdout, p.stderr[-1500:]
             else:
-                res = CliRunner().invoke(cij.cli.fill.main, ["-s", system, path])
+                res = CliRunner().invoke(cij.cli.fill.main, ["-s", system, path] + ([] if datol is None else ["--drop-atol", repr(datol)]))
                 rc, out = res.exit_code, res.output
                 err = "".join(__import__("traceback").format_exception(res.exception)) if res.exception else ""
         except Exception as exc:
             ctx.harness_error("C17.fill_cli", exc)
             continue
-        ctx.evaluation(f"fill-command|{system}|rows:{row_order}", (system, i, tuple(S)), sample={"system": system, "rows": nv, "supplied": [c[0] for c in cols],
+        ctx.evaluation(f"fill-command|{system}|rows:{row_order}" + ("" if datol is None else "|--drop-atol"), (system, i, tuple(S)), sample={"system": system, "rows": nv, "supplied": [c[0] for c in cols],
                                                                                 "lattice_block": lattice is not None, "via": "subprocess" if via_subprocess else "CliRunner"})
         data = {"system": system, "file": open(path).read()}
         if rc != 0:
@@ -446,7 +454,7 @@ def _fill_cli(ctx, tmp):
                     if numpy.abs(numpy.array(comps[p]) - want).max() > 1e-5 * scale + resid * 3:
                         bad = f"{tag}: c{p} = {comps[p][:3]} vs filled {want[:3]}"
                         break
-                elif numpy.abs(want).max() > 1e-5 * scale + resid * 3:
+                elif numpy.abs(want).max() > max(1e-5 * scale + resid * 3, (datol or 0.0) * 1.0001):
                     bad = f"{tag}: c{p} missing from the output (expected up to {numpy.abs(want).max():.4g})"
                     break
             if bad:
